@@ -245,7 +245,7 @@ func TestVerif_C11(t *testing.T) {
 	}
 	// 1b. answers with overlapping lifetimes / concurrent requests on the small objects
 	smallObjs := vf11Flatten(groups)
-	vf11.OverlapPhase(r, "small", 0, r.Pick(40, 400), r.Pick(2, 10), func(rng *rand.Rand) vf11.Call { return st.call(rng, smallObjs) })
+	vf11.OverlapPhase(r, "small", 0, r.Pick(100, 800), r.Pick(2, 10), func(rng *rand.Rand) vf11.Call { return st.call(rng, smallObjs) })
 	if r.Thorough() {
 		r.Assume("exhaustive for payload lengths 0..64 and request values 0..len+2 in all four modes")
 	}
@@ -291,13 +291,19 @@ func TestVerif_C11(t *testing.T) {
 			}
 			break
 		}
+		big2 := vf11.Payload(r.Rand("big2payload", b), 21<<10+r.Rand("big2len", b).IntN(70<<10), false)
 		groups := st.storeAll(func(format string, i int) *vf11.Obj {
 			if i == 0 {
 				return vf11.NewObj(r.Rand("bigobj-"+format, b), cnr, owner, payload, hk)
 			}
+			if i == 3 {
+				// a second large object with other (incompressible) contents: overlapping
+				// answers on two different objects that are both streamed from their files
+				return vf11.NewObj(r.Rand("big2-"+format, b), cnr, owner, big2, (hk+1)%3)
+			}
 			// neighbours inside the same combined files
 			return vf11.NewObj(r.Rand("nb-"+format, b*10+i), cnr, owner, vf11.Payload(r.Rand("nbp", b*10+i), 10+rng.IntN(3000), false), 0)
-		}, 3)
+		}, 4)
 		for _, o := range groups[0] {
 			L := uint64(len(o.Payload))
 			huge := vf11.Huge(L, r.Rand("hugebig", b))
@@ -314,8 +320,9 @@ func TestVerif_C11(t *testing.T) {
 		}
 		// 2b. overlapping / concurrent answers on this store: the big object in all formats and its neighbours
 		bigObjs := vf11Flatten(groups)
-		bigObjs = append(bigObjs, groups[0]...) // the big one twice as likely
-		vf11.OverlapPhase(r, "big", b*1000, r.Pick(10, 30), 1, func(rng *rand.Rand) vf11.Call { return st.call(rng, bigObjs) })
+		bigObjs = append(append(bigObjs, groups[0]...), groups[0]...) // the big one three times as likely
+		bigObjs = append(bigObjs, groups[3]...)                       // the second large one twice
+		vf11.OverlapPhase(r, "big", b*1000, r.Pick(60, 150), 1, func(rng *rand.Rand) vf11.Call { return st.call(rng, bigObjs) })
 		r.Count("big_objects", 1)
 		r.Max("max_payload_len", int64(len(payload)))
 	}
